@@ -88,7 +88,7 @@ def check_mesh(rep, dev, spec, mi):
         rep.violation("a site on an outline is not a boundary site", {**case, "site": int(interior_on_outline[0])})
     # Device.boundary_sites(): one closed loop of site indices per outline (film, each hole) - exactly the mesh sites on that outline,
     # consecutive ones joined by a boundary edge
-    if spec.get("scale", 1.0) == 1.0 and 0.1 <= xi <= 10 and spec.get("smooth", 0) == 0:
+    if spec.get("smooth", 0) == 0:        # (at every length scale / coherence length: the answer is a statement about the mesh, not about units)
         try:
             bs = dev.boundary_sites()
         except Exception as e:  # noqa: BLE001
@@ -209,6 +209,10 @@ def run(rep: common.Report, tier: str, seed: int, replay=None) -> int:
     # coherence length far from the device size: the dimensionless mesh is then tiny (edges ~1e-5) or huge (edges ~1e4)
     specs.append(dict(shape="box", holes=1, terminals=2, smooth=0, max_edge_length=0.8, xi=3e4))
     specs.append(dict(shape="ellipse", holes=0, terminals=0, smooth=0, max_edge_length=0.7, xi=2e-4))
+    # micron-sized devices with holes stated in metres / in units of 1e-9 (every coordinate ~1e-6 / ~1e3)
+    specs.append(dict(shape="box", holes=1, terminals=2, smooth=0, max_edge_length=0.9, xi=0.5, scale=2e-7))
+    specs.append(dict(shape="ellipse", holes=2, terminals=0, smooth=0, max_edge_length=0.9, xi=0.5, scale=1e-7))
+    specs.append(dict(shape="box", holes=1, terminals=0, smooth=0, max_edge_length=0.9, xi=0.5, scale=1e3))
     # devices moved after meshing (in place, along one axis / both): the mesh must still tile the moved film
     specs.append(dict(shape="box", holes=1, terminals=2, smooth=0, max_edge_length=0.9, xi=0.5, moved=(1.7, 0.0)))
     specs.append(dict(shape="ellipse", holes=0, terminals=2, smooth=0, max_edge_length=0.9, xi=0.5, moved=(0.0, -2.2)))
@@ -223,18 +227,25 @@ def run(rep: common.Report, tier: str, seed: int, replay=None) -> int:
     import tdgl as _tdgl
     from tdgl.geometry import box as _box
     ncorner = 0
-    for pi_, (W_, H_, n_, xi_) in enumerate(((3.0, 3.0, 40, 0.5), (6.0, 3.0, 40, 0.5), (5.0, 4.0, 40, 0.5), (10.0, 4.0, 60, 0.5), (4.0, 4.0, 40, 1.0))):
+    from tdgl.geometry import circle as _circle
+    plain = [(3.0, 3.0, 40, 0.5, None), (6.0, 3.0, 40, 0.5, None), (5.0, 4.0, 40, 0.5, None), (10.0, 4.0, 60, 0.5, None), (4.0, 4.0, 40, 1.0, 0.5),
+             # coarse outlines: neighbouring triangles are then often co-circular (four sites on one circle, one shared circumcentre)
+             (4.0, 4.0, 16, 0.5, None), (4.0, 4.0, 8, 0.5, None), (4.0, 4.0, 16, 1.0, 0.5), (-3.0, 3.0, 40, 0.5, 1.0), (-2.0, 2.0, 32, 0.5, None)]
+    for pi_, (W_, H_, n_, xi_, mel_) in enumerate(plain):
+        outline = _box(W_, H_, points=n_) if W_ > 0 else _circle(-W_, points=n_)
+        W_ = abs(W_) if W_ > 0 else 2 * abs(W_)
         dvp = _tdgl.Device(f"plain_{pi_}", layer=_tdgl.Layer(coherence_length=xi_, london_lambda=2.0, thickness=0.1),
-                           film=_tdgl.Polygon("film", points=_box(W_, H_, points=n_)), length_units="um")
+                           film=_tdgl.Polygon("film", points=outline), length_units="um")
         try:
-            dvp.make_mesh(**({"max_edge_length": 0.5} if pi_ == 4 else {}))
-        except Exception:  # noqa: BLE001
-            rep.coverage["plain_devices_not_meshed"] = rep.coverage.get("plain_devices_not_meshed", 0) + 1
+            dvp.make_mesh(**({"max_edge_length": mel_} if mel_ is not None else {}))
+        except Exception as e:  # noqa: BLE001
+            rep.violation(f"make_mesh refused a plain box / circle from the documented primitives: {type(e).__name__}: {e}"[:260],
+                          {"mesh": 900 + pi_, "outline_points": n_, "xi": xi_, "max_edge_length": mel_ if mel_ is not None else "default"})
             continue
         spec_p = dict(shape=f"plain box {W_}x{H_}, {n_} outline points", holes=0, terminals=0, smooth=0, max_edge_length="default", xi=xi_)
         _, _, _, okm_p = check_mesh(rep, dvp, spec_p, 900 + pi_)
         Sx = dvp.mesh.sites * xi_
-        corner = (np.abs(np.abs(Sx[:, 0]) - W_ / 2) < 1e-9) & (np.abs(np.abs(Sx[:, 1]) - H_ / 2) < 1e-9)
+        corner = (np.abs(np.abs(Sx[:, 0]) - W_ / 2) < 1e-9) & (np.abs(np.abs(Sx[:, 1]) - H_ / 2) < 1e-9) & (plain[pi_][0] > 0)
         ncorner += int(np.sum(corner & okm_p))
         rep.nontrivial(("plain", W_, H_, n_))
     rep.coverage["corner_cells_in_area_check"] = ncorner
